@@ -10,7 +10,7 @@ Decided (structural, necessary conditions; DESIGN.md section 5 / C09), all from 
   R-NSW   no self-wait: no spin on the version of a node whose lock the path holds; no lock() on a held node
   R-RDR   readers take no locks
 """
-from yk.facts import AnalysisBroken, CALL_KINDS, is_call, short_loc
+from yk.facts import AnalysisBroken, CALL_KINDS, is_call, root_var, short_loc
 from yk import rules as R
 from yk.locks import (LOCK, LOCK_PARENT, ROOT_LOCK, UNLOCK, ROOT_UNLOCK, UNREACHABLE_TAIL_FUNCS, Y, param_relative,
                       tok_str)
@@ -319,6 +319,89 @@ def rule_wait(S, la):
     S.require('R-WAIT', 'loops in the reader call graphs', nloops, 10)
 
 
+def rule_nul(S):
+    """R-NUL: an inline value type has no 'cleared slot' marker (finding of seed C09f)."""
+    from yk.flow import Explorer
+    from checks import occ
+    facts = S.facts()
+    S.rule('R-NUL', 'readers instantiated for an inline value type (the payload word is the value itself): no retry - a '
+                    '`goto`, or a return of an OK_RETRY_* status - is taken on the ground that the word loaded from the '
+                    'slot (link_or_value::get_value) is null: an all-zero payload is a legitimate stored value there, the '
+                    'version does not change and nobody is obliged to change the slot, so the reader would re-read the '
+                    'same word for ever (for out-of-line types null does mean "cleared by a remove": R-RV)')
+    RETRY = {Y + 'status::OK_RETRY_FROM_ROOT', Y + 'status::OK_RETRY_AFTER_FB', Y + 'status::WARN_RETRY_FROM_ROOT_OF_ALL'}
+    n_inst = 0
+    n_tests = 0
+    for q in (Y + 'get', Y + 'scan_border', Y + 'iscan_findfirst', Y + 'iscan_findnext'):
+        for f in sorted(facts.by_qname(q), key=lambda x: x.fid):
+            if f.is_lambda or not f.blocks or not f.targs:
+                continue
+            if occ.inline_instantiation(facts, f.targs.split(',')[0].strip()) is not True:
+                continue
+            if not any(is_call(n, cq=Y + 'link_or_value::get_value') for n in f.all_nodes()):
+                continue
+            n_inst += 1
+            slot_vars = {v['id'] for n in f.all_nodes() if n['k'] == 'DeclStmt' for v in n.get('vars', [])
+                         if 'init' in v and any(is_call(x, cq=Y + 'link_or_value::get_value') for x in f.walk(v['init']))}
+            for n in f.all_nodes():
+                if n['k'] == 'BinaryOperator' and n.get('op') == '=' and \
+                        any(is_call(x, cq=Y + 'link_or_value::get_value') for x in f.walk(f.ch(n)[1])):
+                    rv = root_var(f, f.ch(n)[0])
+                    if rv:
+                        slot_vars.add(rv)
+            sites = {}
+
+            def is_slot(x):
+                x = f.strip(x, casts=True)
+                return x is not None and x['k'] == 'DeclRefExpr' and x.get('id') in slot_vars
+
+            def step(ctx, nd, st):
+                if nd['k'] == 'ReturnStmt':
+                    if st == 'null' and R.ret_const(f, nd) in RETRY:
+                        sites.setdefault(short_loc(nd), ctx.witness())
+                    return None
+                if is_call(nd, cq=Y + 'link_or_value::get_value'):
+                    return 'fresh'
+                return st
+
+            def branch(ctx, blk, idx, st):
+                nonlocal n_tests
+                if blk.term and blk.term.get('k') == 'GotoStmt':
+                    if st == 'null':
+                        sites.setdefault(short_loc(blk.term), ctx.witness())
+                    return st
+                if not (blk.term and 'cond' in blk.term and len(blk.succ) == 2):
+                    return st
+                c = f.strip(blk.term['cond'], casts=True)
+                truth = idx == 0
+                while c is not None and c['k'] == 'UnaryOperator' and c.get('op') == '!':
+                    truth = not truth
+                    c = f.strip(f.ch(c)[0], casts=True)
+                if c is None:
+                    return st
+                isnull = None
+                if is_slot(c):
+                    isnull = not truth
+                elif c['k'] == 'BinaryOperator' and c.get('op') in ('==', '!='):
+                    l, r = f.ch(c)
+                    for x, y in ((l, r), (r, l)):
+                        if is_slot(x) and R.const_of(f, y) == 'null':
+                            isnull = truth == (c['op'] == '==')
+                if isnull is None:
+                    return st
+                n_tests += 1
+                return 'null' if isnull else 'fresh'
+
+            Explorer(f, step, branch).run('fresh')
+            fname_ = f.qname + '<%s>' % f.targs
+            S.ob('R-NUL', fname_, 'no retry on a null payload', not sites,
+                 'an inline payload of zero is delivered like any other value' if not sites else
+                 'for this inline value type the reader retries because the slot word is null (at %s): a stored 0 / nullptr '
+                 'makes it re-read the same word for ever' % sorted(sites)[0],
+                 loc=sorted(sites)[0] if sites else f.loc, path=sites[sorted(sites)[0]] if sites else None)
+    S.require('R-NUL', 'reader instantiations for inline value types', n_inst, 2)
+
+
 def run(S):
     S.undecided = ['termination of the optimistic retry loops and of get_child_of\'s wait loop under fair schedules '
                    '(livelock / starvation)',
@@ -337,6 +420,7 @@ def run(S):
     rule_nsw(S, la)
     rule_rdr(S, la)
     rule_wait(S, la)
+    rule_nul(S)
     # the cursor's stale-root handling must not retry without progress on an emptied tree (shared with C10)
     from checks.C10 import rule_end0
     rule_end0(S)
